@@ -167,6 +167,134 @@ def roundtrip(t, cfg, ctx, obj):
     return [case]
 
 
+def c03_extra(t, cfg, ctx, obj):
+    """C03 beyond the eight flatteners: tree_is_leaf / all_leaves, reductions vs Python folds, hash/repr of the treespecs
+    returned by different entry points, paths/accessors recomputed from the treespec alone"""
+    import functools, operator
+    kw = dict(none_is_leaf=cfg['nil'], namespace=cfg['ns'])
+    pred = U.make_pred(cfg, ctx)
+    case = {'op': 'c03extra', 't': t, 'cfg': cfg}
+    with U.modes(cfg['modes']):
+        try:
+            leaves, spec = optree.tree_flatten(obj, pred, **kw)
+        except Exception as ex:  # noqa: BLE001
+            case['err'] = U.exc_class(ex)
+            return [case]
+        case['err'] = ''
+        case['leaves'] = U.leaf_ids(leaves, ctx)
+        specs = [spec, optree.tree_flatten_with_path(obj, pred, **kw)[2], optree.tree_flatten_with_accessor(obj, pred, **kw)[2],
+                 optree.tree_structure(obj, pred, **kw)]
+        case['specs_equal'] = all(a == spec and not (a != spec) for a in specs)
+        case['specs_hash'] = len({hash(a) for a in specs}) == 1
+        case['specs_repr'] = len({repr(a) for a in specs}) == 1
+        case['spec_paths'] = [proj_path(p) for p in spec.paths()]
+        case['spec_accs'] = [proj_acc(a) for a in spec.accessors()]
+        case['tree_paths'] = [proj_path(p) for p in optree.tree_paths(obj, pred, **kw)]
+        case['tree_accs'] = [proj_acc(a) for a in optree.tree_accessors(obj, pred, **kw)]
+        case['counts'] = [spec.num_leaves, len(spec), len(leaves)]
+        # tree_is_leaf on every subtree object reachable in the model tree
+        subs = []
+
+        def walk(m, o):
+            subs.append({'id': m['id'] if m['k'] != 'none' else 0, 'k': m['k'], 'is_leaf': bool(optree.tree_is_leaf(o, pred, **kw)),
+                         'sub': m})
+            if m['k'] in ('leaf', 'none', 'sub'):
+                return
+            kids = list(o.values()) if isinstance(o, dict) else o.children if isinstance(o, U._CustomBase) else list(o)
+            for mm, oo in zip(m['ch'], kids):
+                walk(mm, oo)
+        walk(t, obj)
+        case['is_leaf'] = subs[:40]
+        case['all_leaves_of_leaves'] = bool(optree.all_leaves(leaves, pred, **kw))
+        kids = list(obj.values()) if isinstance(obj, dict) else list(obj) if isinstance(obj, (list, tuple, U.deque)) else None
+        if kids is not None and type(obj) not in (U.SubList, U.SubDict, U.SubTuple):
+            case['all_leaves_children'] = {'v': bool(optree.all_leaves(kids, pred, **kw)), 'n': len(kids)}
+        # folds (only when every leaf is a plain Leaf object: they carry arithmetic)
+        if leaves and all(type(x) is U.Leaf for x in leaves):
+            case['folds'] = {k: (v.n if type(v) is U.Leaf else v) for k, v in {
+                'reduce': optree.tree_reduce(operator.add, obj, is_leaf=pred, **kw), 'py_reduce': functools.reduce(operator.add, leaves),
+                'reduce_init': optree.tree_reduce(operator.add, obj, 1000, is_leaf=pred, **kw),
+                'sum': optree.tree_sum(obj, is_leaf=pred, **kw), 'py_sum': sum(leaves),
+                'max': optree.tree_max(obj, is_leaf=pred, **kw).n, 'min': optree.tree_min(obj, is_leaf=pred, **kw).n,
+                'all': bool(optree.tree_all(obj, is_leaf=pred, **kw)), 'any': bool(optree.tree_any(obj, is_leaf=pred, **kw)),
+                'py_all': all(leaves), 'py_any': any(leaves),
+            }.items()}
+    return [case]
+
+
+def depth_cases(cfg0):
+    """C03/C16: nesting around MAX_RECURSION_DEPTH for every node kind; self-reference; non-terminating custom flatten.
+    Bound to the specification by offset: the model runs the same scenario at MaxDepth=4."""
+    import collections
+    M = optree.MAX_RECURSION_DEPTH
+    out = []
+
+    def chain(kind, n, leaf):
+        x = leaf
+        for _ in range(n):
+            if kind == 'tuple':
+                x = (x,)
+            elif kind == 'list':
+                x = [x]
+            elif kind == 'dict':
+                x = {'a': x}
+            elif kind == 'odict':
+                x = U.OrderedDict(a=x)
+            elif kind == 'ddict':
+                x = U.defaultdict(list, a=x)
+            elif kind == 'deque':
+                x = U.deque([x])
+            elif kind == 'nt':
+                x = U.NT1(x)
+            elif kind == 'ss':
+                x = U.SS2((x, 0.0))
+            elif kind == 'custom':
+                x = U.CA([x], 1)
+        return x
+
+    def run_all(obj, nil):
+        kw = dict(none_is_leaf=nil)
+        outs = []
+        for name, fn in (('tree_flatten', lambda: len(optree.tree_flatten(obj, **kw)[0])),
+                         ('tree_flatten_with_path', lambda: len(optree.tree_flatten_with_path(obj, **kw)[1])),
+                         ('tree_flatten_with_accessor', lambda: len(optree.tree_flatten_with_accessor(obj, **kw)[1])),
+                         ('tree_leaves', lambda: len(optree.tree_leaves(obj, **kw))),
+                         ('tree_iter', lambda: len(list(optree.tree_iter(obj, **kw)))),
+                         ('tree_structure', lambda: optree.tree_structure(obj, **kw).num_leaves),
+                         ('tree_paths', lambda: len(optree.tree_paths(obj, **kw))),
+                         ('tree_accessors', lambda: len(optree.tree_accessors(obj, **kw)))):
+            try:
+                outs.append({'ep': name, 'err': '', 'n': fn()})
+            except Exception as ex:  # noqa: BLE001
+                outs.append({'ep': name, 'err': U.exc_class(ex)})
+        return outs
+    import sys
+    sys.setrecursionlimit(max(sys.getrecursionlimit(), 20000))
+    for kind in ('tuple', 'list', 'dict', 'odict', 'ddict', 'deque', 'nt', 'ss', 'custom'):
+        for delta in (-2, -1, 0, 1, 2):
+            for nil in (False, True):
+                obj = chain(kind, M + delta, U.Leaf(1))
+                out.append({'op': 'depth', 'kind': kind, 'delta': delta, 'nil': nil, 'depth': M + delta, 'outs': run_all(obj, nil)})
+                obj = None
+    # self-referential containers and a custom node whose flatten never terminates
+    l = []
+    l.append(l)
+    out.append({'op': 'depth', 'kind': 'self-list', 'delta': 99, 'nil': False, 'depth': 0, 'outs': run_all(l, False)})
+    d = {}
+    d['a'] = d
+    out.append({'op': 'depth', 'kind': 'self-dict', 'delta': 99, 'nil': False, 'depth': 0, 'outs': run_all(d, False)})
+
+    class Endless(U.CA):
+        def tree_flatten(self):
+            return ((Endless([], 1),), U.mk_meta(1))
+    optree.register_pytree_node_class(Endless, namespace=U.GLOBAL_NAMESPACE)
+    try:
+        out.append({'op': 'depth', 'kind': 'endless-custom', 'delta': 99, 'nil': False, 'depth': 0, 'outs': run_all(Endless([], 1), False)})
+    finally:
+        optree.unregister_pytree_node(Endless, namespace=U.GLOBAL_NAMESPACE)
+    return out
+
+
 def shuffled(t, rng):
     """the same mapping(s), other insertion orders (dict / defaultdict only; OrderedDict order is significant)"""
     kids = [shuffled(c, rng) for c in t['ch']]
@@ -256,14 +384,20 @@ def work(line):
     out = []
     for cfg in item['cfgs']:
         ctx = U.Ctx()
-        obj = U.realise(t, ctx)
+        if 'hist' in item:
+            obj = U.realise(t, ctx, {item['hist']['id']: U.realise_hist(item['hist'], ctx)})
+        else:
+            obj = U.realise(t, ctx)
         # self-check of the binding: project(realise(t)) == t
         back = U.project(obj, ctx)
         if back != t:
-            out.append({'op': 'selfcheck-failed', 't': t, 'back': back})
+            # for history-built containers this says: the model of Python's container semantics (HistGen) is wrong
+            out.append({'op': 'selfcheck-failed', 't': t, 'back': back, 'hist': item.get('hist')})
             continue
         if 'flatten' in fams:
             out.append(flatten_family(t, cfg, ctx, obj, item.get('eps'), 'acclaws' in fams))
+        if 'c03extra' in fams:
+            out.extend(c03_extra(t, cfg, ctx, obj))
         if 'c02laws' in fams:
             out.extend(c02_laws(t, cfg, ctx, obj))
         if 'roundtrip' in fams:
@@ -276,6 +410,9 @@ def work(line):
                     spec = None
             if spec is not None:
                 out.append(inspect_case(spec))
+    if 'hist' in item:
+        for c in out:
+            c['hist'] = item['hist']
     return [json.dumps(c, separators=(',', ':')) for c in out]
 
 
@@ -290,6 +427,12 @@ def main():
         d = json.loads(l)
         d['fams'] = fams
         lines.append(json.dumps(d))
+    if 'depth' in fams:
+        init()
+        with open(outp, 'w') as fh:
+            for c in depth_cases(None):
+                fh.write(json.dumps(c, separators=(',', ':')) + '\n')
+        return
     with mp.Pool(int(os.environ.get('VERIF_PROCS', '16')), initializer=init) as pool, open(outp, 'w') as fh:
         for res in pool.imap(work, lines, chunksize=16):
             for c in res:
